@@ -313,7 +313,7 @@ def same_result(r, base, x, y, key, what):
 # ---------------------------------------------------------------------------------------------
 def pair_space(tier):
     if tier == "thorough":
-        return dict(a_shift=((0, 0), (2, -3)), a_shape=range(0, 5), b_shift=range(-5, 6), b_shape=range(0, 4))
+        return dict(a_shift=((0, 0), (2, -3)), a_shape=range(0, 4), b_shift=range(-5, 6), b_shape=range(0, 4))
     return dict(a_shift=((0, 0),), a_shape=(0, 1, 3), b_shift=range(-4, 5), b_shape=range(0, 4))
 
 
@@ -984,8 +984,8 @@ def slices(tier):
                  "regions in another CRS: lon/lat, UTM and web-mercator boxes; few-pixel lon/lat quadrilaterals with "
                  "perturbed corners; oracle = fresh pyproj transformer on densely sampled edges"),
         e1.Slice("bbox-pairs", gen_bbox_pairs(tier), make_run_bbox_pair(tier), "all ordered pairs of valid boxes, crs None / 3857"),
-        e1.Slice("bbox-triples", gen_bbox_pairs(tier, 2 if tier == "thorough" else 1), make_run_bbox_triples(tier),
-                 "all ordered triples of valid boxes (case = ordered pair, third operand enumerated inside)"),
+        e1.Slice("bbox-triples", gen_bbox_pairs(tier, 1), make_run_bbox_triples(tier),
+                 "all ordered triples of valid boxes, crs None (case = ordered pair, third operand enumerated inside)"),
     ]
 
 
